@@ -2,10 +2,10 @@
 From KG Require Import Prelude C06_Model C06_Spec.
 Open Scope Z_scope.
 
-(* a request for schema "tb" (clock reading, reached the upstream / admitted?, HTTP status) or a re-sync of
+(* a request of some kind for schema "tb" (kind, clock reading, reached the upstream / admitted?, HTTP status) or a re-sync of
    the cluster's flow-control spec; after each: what GetFlowSchema("tb") returns (is it a token-bucket
    limiter, and its qps / burst as printed by String()) *)
-Inductive dop := DTry (t : Z) (reached : bool) (status : Z) | DSync (spec : fcspec).
+Inductive dop := DTry (k : rkind) (t : Z) (reached : bool) (status : Z) | DSync (spec : fcspec).
 Record lk := { lk_tb : bool; lk_q : Z; lk_b : Z }.
 
 Inductive case :=
@@ -68,7 +68,7 @@ Definition tb_cfg (spec : fcspec) : option cfg :=
 Fixpoint agree_ulim (u : ulim) (tr : list (dop * lk)) : bool :=
   match tr with
   | [] => true
-  | (DTry now reached _, _) :: rest =>
+  | (DTry _ now reached _, _) :: rest =>
       match alookup "tb" (umap u) with
       | Some (Some rt) =>
           let '(s', a) := follow (rc rt) (rs rt) now reached in
@@ -83,7 +83,7 @@ Fixpoint agree_ulim (u : ulim) (tr : list (dop * lk)) : bool :=
 Fixpoint disp_ops (tr : list (dop * lk)) : option (list (op * bool)) :=
   match tr with
   | [] => Some []
-  | (DTry t reached _, _) :: rest => option_map (cons (OTry t, reached)) (disp_ops rest)
+  | (DTry _ t reached _, _) :: rest => option_map (cons (OTry t, reached)) (disp_ops rest)
   | (DSync spec, _) :: rest =>
       match tb_cfg spec with
       | Some c => option_map (cons (OResize (qps c) (burst c), true)) (disp_ops rest)
@@ -113,7 +113,7 @@ Definition eval (c : case) : list bool :=
           let segs := segments c0 [] ops in
           [ agree_ulim (usync ulim_new spec0) tr;
             all_segments closed_ok segs; all_segments open_ok segs; all_segments lower_ok segs;
-            forallb (fun x => match fst x with DTry _ r st => status_ok r st | _ => true end) tr;
+            forallb (fun x => match fst x with DTry _ _ r st => status_ok r st | _ => true end) tr;
             lookup_ok c0 tr ]
       | _, _ => [false; false; false; false; false; false]
       end
